@@ -120,3 +120,20 @@ Definition window_unchecked (p : profile) (a : ralloc) (n : N) : ralloc * wres :
 (* behaviour after the fix: explicit limit error before narrowing *)
 Definition window_checked (p : profile) (a : ralloc) (n : N) : ralloc * wres :=
   if 255 <? n then (a, WLimit) else window_unchecked p a n.
+
+(* a construct that takes `extra` single registers after its window
+   (tagged templates allocate the `this` register after the expressions) *)
+Fixpoint allocs (a : ralloc) (k : nat) : ralloc * bool :=
+  match k with
+  | O => (a, true)
+  | S k' => match alloc a with
+            | (a', Ok _) => allocs a' k'
+            | (a', ErrLimit) => (a', false)
+            end
+  end.
+
+Definition construct_window (p : profile) (a : ralloc) (n : N) (extra : nat) : ralloc * wres :=
+  match window_checked p a n with
+  | (a', WOk regs) => let '(a'', ok) := allocs a' extra in (a'', if ok then WOk regs else WLimit)
+  | r => r
+  end.
